@@ -74,6 +74,39 @@ pub fn base_frames() -> Vec<(String, Vec<u8>)> {
                     }
                 }
             }
+            // the complement pattern: every bit that is 0 in the frames above is 1 here (structural bytes kept)
+            if matches!(link, Link::Eth | Link::Vlan1) && matches!(net, Net::V4(5) | Net::V4(6) | Net::V6) {
+                for tr in [Trans::Udp, Trans::Tcp(5), Trans::Tcp(7)] {
+                    let orig = build_frame(link, net, tr, 24);
+                    let mut f: Vec<u8> = orig.iter().map(|b| !b).collect();
+                    let ip = if link == Link::Eth { 14 } else { 18 };
+                    let mut keep: Vec<usize> = vec![12, 13, ip]; // EtherType (or the 0x8100 tag), version/IHL
+                    if link == Link::Vlan1 {
+                        keep.extend([16, 17]);
+                    }
+                    let l4 = match net {
+                        Net::V4(ihl) => {
+                            keep.push(ip + 9);
+                            ip + (ihl as usize) * 4
+                        }
+                        _ => {
+                            keep.push(ip + 6);
+                            ip + 40
+                        }
+                    };
+                    for k in keep {
+                        f[k] = orig[k];
+                    }
+                    // version nibble of IPv6 / data offset nibble of TCP stay, the other nibble is complemented
+                    if net == Net::V6 {
+                        f[ip] = (orig[ip] & 0xF0) | (!orig[ip] & 0x0F);
+                    }
+                    if let Trans::Tcp(_) = tr {
+                        f[l4 + 12] = (orig[l4 + 12] & 0xF0) | (!orig[l4 + 12] & 0x0F);
+                    }
+                    v.push((format!("{:?}/{:?}/{:?}/+24/complement", link, net, tr), f));
+                }
+            }
             for tr in trs {
                 for payload in [0usize, 1, 24] {
                     if payload == 1 && !(matches!(net, Net::V4(5)) || net == Net::V6) {
